@@ -8,7 +8,7 @@
    A dropped conjunct of `select`, a key that forgets the tag, a variant of FilterPart that
    contributes something else, a fused rule that takes its options from another member, or a
    mask bit computed with `all` changes the generated data and breaks a proof. *)
-From Coq Require Import String.
+From Coq Require Import String Lia.
 From Adb Require Import Base Generated Hashing Net_Model C05_Model.
 Import OptGen.
 Local Open Scope string_scope.
@@ -171,3 +171,49 @@ Qed.
 Theorem apply_structure_is_model :
   fuse_groups_larger_than = 1%N /\ optimize_final_sort = "id".
 Proof. split; reflexivity. Qed.
+
+(* ---- NetworkFilterList::optimize, bucket by bucket, from the steps the translator extracts
+   (Generated.ListGen.optimize_steps / optimize_threshold / optimize_sorts_by) ---- *)
+Record bucket_state := { bs_owned : list rule; bs_shared : list rule; bs_cur : list rule }.
+Definition bucket_step (m : fmap) (bucket : list rule) (st : string) (s : bucket_state) : option bucket_state :=
+  if String.eqb st "split owned/shared" then
+    Some {| bs_owned := filter (fun f => Nat.eqb (occurrences m (rid f)) 1) bucket;
+            bs_shared := filter (fun f => negb (Nat.eqb (occurrences m (rid f)) 1)) bucket;
+            bs_cur := bs_cur s |}
+  else if String.eqb st "owned>threshold: optimizer::optimize, else unchanged" then
+    Some {| bs_owned := bs_owned s; bs_shared := bs_shared s;
+            bs_cur := if N.ltb ListGen.optimize_threshold (N.of_nat (length (bs_owned s)))
+                      then optimize (bs_owned s) else bs_owned s |}
+  else if String.eqb st "append shared" then
+    Some {| bs_owned := bs_owned s; bs_shared := bs_shared s; bs_cur := bs_cur s ++ bs_shared s |}
+  else if String.eqb st "sort" then
+    (if String.eqb ListGen.optimize_sorts_by "id"
+     then Some {| bs_owned := bs_owned s; bs_shared := bs_shared s; bs_cur := sort_by_id (bs_cur s) |}
+     else None)
+  else if String.eqb st "store under the same key" then Some s
+  else if String.eqb st "replace the map" then Some s
+  else None.
+Fixpoint bucket_steps (m : fmap) (bucket : list rule) (sts : list string) (s : bucket_state) : option bucket_state :=
+  match sts with
+  | [] => Some s
+  | st :: r => match bucket_step m bucket st s with Some s' => bucket_steps m bucket r s' | None => None end
+  end.
+Definition interp_bucket (m : fmap) (bucket : list rule) : option (list rule) :=
+  match bucket_steps m bucket ListGen.optimize_steps {| bs_owned := []; bs_shared := []; bs_cur := [] |} with
+  | Some s => Some (bs_cur s) | None => None end.
+
+Lemma ltb_1_length {A} (l : list A) : N.ltb 1 (N.of_nat (length l)) = Nat.ltb 1 (length l).
+Proof.
+  destruct (N.ltb_spec 1 (N.of_nat (length l))); destruct (Nat.ltb_spec 1 (length l)); try reflexivity; lia.
+Qed.
+
+(* every bucket: the extracted steps give exactly the model's bucket, under the same key *)
+Theorem interp_fl_optimize_is_model m :
+  map (fun kb => match interp_bucket m (snd kb) with Some b => Some (fst kb, b) | None => None end) m
+  = map Some (fl_optimize m).
+Proof.
+  unfold fl_optimize. rewrite map_map. apply map_ext. intro kb.
+  unfold interp_bucket, ListGen.optimize_steps, ListGen.optimize_threshold, ListGen.optimize_sorts_by.
+  cbn [bucket_steps bucket_step String.eqb Ascii.eqb Bool.eqb bs_owned bs_shared bs_cur].
+  rewrite ltb_1_length. reflexivity.
+Qed.
